@@ -114,7 +114,8 @@ def c17_run(prop, cfg, seed, tier, workdir):
         if d is not None and len(violations) < 3:
             violations.append((f"interference-{a}", "# the kept contexts behave differently with / without input-disjoint contexts\n"
                                f"# first difference (index, with D, without D): {d!r}\n" + "\n".join(A) + "\n" + "\n".join(B) + "\n"))
-    return dict(scenarios=scenarios, impl=impl, model=model, mismatches=mismatches, outside=outside, evaluations=len(scenarios) * 2,
+    # a difference from the model is not by itself a failing input for C17 (that is what the pair / re-run oracles find)
+    return dict(scenarios=scenarios, impl=impl, model=model, mismatches=[], upstream=mismatches, outside=outside, evaluations=len(scenarios) * 2,
                 distinct=len(scenarios), nontrivial=nontriv, stats=stats, n_corpus=len(corpus), violations=violations,
                 extra_coverage={"pairs_compared": len(pairs), "determinism_reruns": len(scenarios)})
 
